@@ -545,6 +545,19 @@ func exec(h *rt.H, s *state, op string) (string, string) {
 		}
 		if err == nil {
 			finalOracle(h, s, svcs, post, op)
+			// assumption monitor for the unproved half of "lists exactly": distinct service keys that own a
+			// backend block (cluster-IP and per-node NodePortRemote keys) never share a NAT service ID
+			owner := map[uint32]string{}
+			for _, e := range s.syn.VerifSvcIDs() {
+				if e.Extra != "" && !strings.HasPrefix(e.Extra, "NodePortRemote:") {
+					continue
+				}
+				me := tok[e.Name] + "/" + e.Extra
+				if o, ok := owner[e.ID]; ok && o != me {
+					h.OracleFail("id-shared", "two services share one NAT service ID after a completed sync: "+o+" and "+me, map[string]any{"op": op, "id": e.ID})
+				}
+				owner[e.ID] = me
+			}
 		}
 		h.Count(fmt.Sprintf("apply:writes:%s", bucket(len(s.trace))))
 		kinds := map[string]bool{}
@@ -764,7 +777,11 @@ func (w *world) freeIP(base uint32, n int, except *svcT) uint32 {
 			return c
 		}
 	}
-	return base + 200 + uint32(len(w.svcs))
+	for c := base + 100; ; c++ { // pool exhausted: first unused address above the pool
+		if !used[c] {
+			return c
+		}
+	}
 }
 
 func (w *world) freeNP(except *svcT) uint32 {
